@@ -404,21 +404,30 @@ def random_history(rng):
     b = Builder(init)
     n = rng.randrange(4, 41)
     seq = []
+    # half of the histories have a "hot" offer (one source, one service, one TTL - infinite in half of them) that is
+    # repeated verbatim, and a hot registration that comes and goes: what a repeated, unchanged offer means depends on
+    # who was watching when it arrived before
+    hot = (rng.choice("AB"), SERVICES[rng.choice((1, 1, 2, 3))], rng.choice((FOREVER, FOREVER, 1, 2, 3)), rng.random() < 0.3) \
+        if rng.random() < 0.5 else None
+    hot_reg = rng.choice(("ALL", "ALL", "F1", rng.choice(list(REGS))))
     for _ in range(n):
         r = rng.random()
         if r < 0.55:
-            src = rng.choice("AAB")
-            k = rng.choice((1, 1, 1, 2, 3, 4, 5))
-            ents = [(SERVICES[k], rng.choice((0, 1, 1, 2, 3, FOREVER)))]
-            if rng.random() < 0.15:
-                ents.append((SERVICES[rng.choice((1, 2, 3, 4, 5))], rng.choice((0, 1, 2, FOREVER))))
-            a = dict(kind="msg", src=src, mc=rng.random() < 0.3, entries=ents, reboot=rng.random() < 0.12)
+            if hot and rng.random() < 0.6:
+                a = dict(kind="msg", src=hot[0], mc=hot[3], entries=[(hot[1], hot[2])], reboot=False)
+            else:
+                src = rng.choice("AAB")
+                k = rng.choice((1, 1, 1, 2, 3, 4, 5))
+                ents = [(SERVICES[k], rng.choice((0, 1, 1, 2, 3, FOREVER)))]
+                if rng.random() < 0.15:
+                    ents.append((SERVICES[rng.choice((1, 2, 3, 4, 5))], rng.choice((0, 1, 2, FOREVER))))
+                a = dict(kind="msg", src=src, mc=rng.random() < 0.3, entries=ents, reboot=rng.random() < 0.12)
         elif r < 0.6:
             a = dict(kind="msg", src=rng.choice("AB"), mc=False, entries=[], reboot=True)
         elif r < 0.64:
             a = dict(kind="lost")
         else:
-            reg = rng.choice(list(REGS))
+            reg = hot_reg if hot and rng.random() < 0.6 else rng.choice(list(REGS))
             a = dict(kind="unwatch" if reg in b.regs else "watch", reg=reg)
         pl = rng.choice(("new", "new", "same", "same", "same+1", "same+2", "d-eps", "d:before", "d:after", "d:after+1", "d+eps", "d-res"))
         if b.add(a, pl):
@@ -465,7 +474,7 @@ def shards(tier, seed):
     n = 16
     out = [dict(shard=i, nshards=n, seed=seed, mode="core", length=3 if tier == "quick" else 4,
                 sample=None if tier == "quick" else 0.02) for i in range(n)]
-    out += [dict(shard=100 + i, seed=seed, mode="random", n=300 if tier == "quick" else 40000) for i in range(n)]
+    out += [dict(shard=100 + i, seed=seed, mode="random", n=600 if tier == "quick" else 40000) for i in range(n)]
     return out
 
 
